@@ -11,6 +11,7 @@ import (
 	"fmt"
 	"io"
 	"strconv"
+	"strings"
 	"sync"
 	"sync/atomic"
 	"time"
@@ -27,6 +28,11 @@ type SelectCase struct {
 	// NoPart: the partition does not exist when the stream starts (N0 = 0): the source expression of the first request(s)
 	// matches nothing, the cursor is the empty cursor; the first record appended creates the partition
 	NoPart bool `json:"nopart,omitempty"`
+	// Filter: "" | "where" (WHERE msg CONTAINS "m") | "range-ahead" (RANGE from 1000000 on; the stored records are older) |
+	// "where+range"; the records of the schedule match the filter; Decoy: every appended batch is preceded by one event
+	// the filter rejects (where the partition's timestamps allow it), which the stream must not deliver
+	Filter string `json:"filter,omitempty"`
+	Decoy  bool   `json:"decoy,omitempty"`
 	// Via: "" / "rpc" = through the rpc client (api/rpc ServerQuerier.query), "backend" = pkg/backend Querier.Query
 	Via string `json:"via,omitempty"`
 	Limit  int      `json:"limit"`  // batch size of the stream (0: 100; never below what a round appends: the model has no batch limit)
@@ -79,6 +85,40 @@ type gapQuerier struct {
 	err     error
 	cancel  context.CancelFunc
 	queries []string
+	filter  string
+	decoy   bool
+	hot     bool // the partition holds an event inside the RANGE
+	decoys  int
+}
+
+// appendN appends n records of the schedule (they match the stream's filter), preceded by a rejected event if asked for
+func (g *gapQuerier) appendN(n int) error {
+	where := g.filter == "where" || g.filter == "where+range"
+	ahead := g.filter == "range-ahead" || g.filter == "where+range"
+	if g.decoy && (where || (ahead && !g.hot)) {
+		g.decoys++
+		ts, msg := int64(g.total+1), "x"+strconv.Itoa(g.decoys)
+		if where && ahead {
+			ts += rangeT0
+		}
+		if err := writeEv(g.srv, g.tags, ts, msg); err != nil {
+			return err
+		}
+	}
+	for i := 0; i < n; i++ {
+		ts, msg := int64(g.total+i+1), strconv.Itoa(g.total+i)
+		if ahead {
+			ts += rangeT0
+			g.hot = true
+		}
+		if where {
+			msg = "m" + msg
+		}
+		if err := writeEv(g.srv, g.tags, ts, msg); err != nil {
+			return err
+		}
+	}
+	return nil
 }
 
 func (g *gapQuerier) Query(ctx context.Context, req *api.QueryRequest, res *api.QueryResult) error {
@@ -90,7 +130,7 @@ func (g *gapQuerier) Query(ctx context.Context, req *api.QueryRequest, res *api.
 	g.k++
 	g.queries = append(g.queries, fmt.Sprintf("{id %d pos %q query %q}", req.ReqId, req.Pos, req.Query))
 	if b > 0 {
-		if err := writeN(g.srv, g.tags, g.total, b); err != nil {
+		if err := g.appendN(b); err != nil {
 			g.err = err
 			return err
 		}
@@ -122,7 +162,7 @@ func (g *gapQuerier) Query(ctx context.Context, req *api.QueryRequest, res *api.
 				g.err = fmt.Errorf("select case: the request of round %d did not start a wait", g.k)
 				return
 			}
-			if err := writeN(g.srv, g.tags, g.total, d); err != nil {
+			if err := g.appendN(d); err != nil {
 				g.err = err
 				return
 			}
@@ -191,7 +231,14 @@ func runSelect(srv *Server, sc SelectCase) (*Case, error) {
 	}
 	ctx, cancel := context.WithCancel(context.Background())
 	defer cancel()
-	g := &gapQuerier{in: in, srv: srv, tags: tags, src: src, rounds: sc.Rounds, total: sc.N0, cancel: cancel}
+	g := &gapQuerier{in: in, srv: srv, tags: tags, src: src, rounds: sc.Rounds, total: sc.N0, cancel: cancel, filter: sc.Filter, decoy: sc.Decoy}
+	clause := ""
+	if sc.Filter == "range-ahead" || sc.Filter == "where+range" {
+		clause += fmt.Sprintf(` RANGE ["%d":"4000000000000000000"]`, rangeT0)
+	}
+	if sc.Filter == "where" || sc.Filter == "where+range" {
+		clause += ` WHERE msg CONTAINS "m"`
+	}
 	for _, r := range sc.Rounds {
 		if r[0] > 0 && r[1] > 0 {
 			return nil, fmt.Errorf("select case: a round appends either in the gap or during the wait")
@@ -204,10 +251,10 @@ func runSelect(srv *Server, sc SelectCase) (*Case, error) {
 	var got []int
 	done := make(chan error, 1)
 	go func() {
-		done <- api.Select(ctx, g, &api.QueryRequest{Query: "SELECT FROM sel=" + id, Pos: "tail", Limit: limit, WaitTimeout: 1}, true,
+		done <- api.Select(ctx, g, &api.QueryRequest{Query: "SELECT FROM sel=" + id + clause, Pos: "tail", Limit: limit, WaitTimeout: 1}, true,
 			func(res *api.QueryResult) {
 				for _, e := range res.Events {
-					n, err := strconv.Atoi(e.Message)
+					n, err := strconv.Atoi(strings.TrimPrefix(e.Message, "m"))
 					if err != nil {
 						n = -1
 					}
@@ -265,7 +312,7 @@ func runSelect(srv *Server, sc SelectCase) (*Case, error) {
 	}
 	return &Case{Coq: GApp("KSelect", GNat(sc.N0), GList(rs), GListNat(got)), Replay: map[string]interface{}{"kind": "select", "select": sc},
 		NonTrivial: empty > 0 && g.total > p0, Oracle: v, Stream: map[bool]string{false: "select", true: "select-empty"}[sc.NoPart], Key: "select/" + id,
-		Tags: []string{fmt.Sprintf("select-empty-rounds:%d", empty), "select-via:" + map[string]string{"": "rpc", "rpc": "rpc", "backend": "backend"}[sc.Via]}}, nil
+		Tags: []string{fmt.Sprintf("select-empty-rounds:%d", empty), "select-via:" + map[string]string{"": "rpc", "rpc": "rpc", "backend": "backend"}[sc.Via], "select-filter:" + map[string]string{"": "none"}[sc.Filter] + sc.Filter}}, nil
 }
 
 // genSelect: 2..4 rounds, each empty (about two at most: each costs the 1 s time-out), or with 1-2 records appended in the
@@ -288,6 +335,10 @@ func genSelect(r *Rng) SelectCase {
 			rd = [2]int{1, 0}
 		}
 		sc.Rounds = append(sc.Rounds, rd)
+	}
+	if r.Chance(1, 2) {
+		sc.Filter = r.PickStr("where", "range-ahead", "where+range")
+		sc.Decoy = r.Chance(1, 2)
 	}
 	return sc
 }
